@@ -147,6 +147,31 @@ def membership(ctx, d, stats):
       if got2 != exp:
         ctx.violation({'via': 'membership', 'fn': 'SearchSpace.assert_contains', 'got': got2, 'exp': exp},
                       {'kind': 'membership', 'space': r['sp'], 'assignment': repr(raw), 'expected': exp, 'observed': got2})
+    # near misses: the closest float on the far side of a contained value that lies on a boundary / is a feasible point is
+    # NOT contained (membership is exact, not approximate)
+    if exp == 'T':
+      import math
+      for n, k in sorted(r['sp'].items()):
+        v = raw.get(n)
+        if k not in ('D', 'S', 'Si', 'Sn') or isinstance(v, bool) or not isinstance(v, (int, float)):
+          continue
+        if k == 'D' and float(v) not in (0.0, 2.5):
+          continue
+        miss = math.nextafter(float(v), -math.inf if (k == 'D' and float(v) == 0.0) else math.inf)
+        if k != 'D' and miss == float(v) * 1.0 and False:
+          continue
+        near = dict(raw)
+        near[n] = miss
+        stats['membership_cases'] += 1
+        try:
+          g = 'T' if sp.contains(vz.ParameterDict(near)) else 'F'
+        except Exception as e:  # pylint: disable=broad-except
+          g = 'RAISED:' + type(e).__name__
+        if g != 'F':
+          ctx.violation({'via': 'membership', 'fn': 'SearchSpace.contains', 'got': g, 'exp': 'F', 'kinds': k, 'values': 'near-miss'},
+                        {'kind': 'membership', 'space': r['sp'], 'assignment': repr(near), 'expected': 'F', 'observed': g,
+                         'note': 'one ulp away from the contained value %r' % (v,)})
+        break
     # per-parameter membership
     if set(r['asg']) == set(r['sp']) and len(r['sp']) == 1:
       (n, k), = r['sp'].items()
@@ -188,8 +213,11 @@ def add_trial_refusal(ctx, recs, stats):
       studies[key] = clients.Study(vizier_client.VizierClient(st.name, 'c', svc))
     raw = {n: ssutil.pyval(v) for n, v in r['asg'].items()}
     try:
-      t = vz.Trial(parameters=raw)
-      t.complete(vz.Measurement(metrics={'a': 1.0}))
+      # a completed trial, a plain (pending) one, or a user-built REQUESTED one: the space check applies to all of them
+      form = ('completed', 'pending', 'requested')[i % 3]
+      t = vz.Trial(parameters=raw, is_requested=(form == 'requested'))
+      if form == 'completed':
+        t.complete(vz.Measurement(metrics={'a': 1.0}))
     except Exception:  # pylint: disable=broad-except
       continue
     stats['add_trial_cases'] += 1
@@ -207,8 +235,8 @@ def add_trial_refusal(ctx, recs, stats):
       ctx.violation({'via': 'add_trial', 'what': 'refused-trial-was-stored' if got != 'T' else 'accepted-trial-not-stored'},
                     {'kind': 'membership', 'space': r['sp'], 'assignment': repr(raw), 'trials_before': before, 'trials_after': after})
     if got != r['contains']:
-      ctx.violation({'via': 'add_trial', 'got': got, 'exp': r['contains']},
-                    {'kind': 'membership', 'space': r['sp'], 'assignment': repr(raw), 'expected': r['contains'], 'observed': got})
+      ctx.violation({'via': 'add_trial', 'got': got, 'exp': r['contains'], 'trial': form},
+                    {'kind': 'membership', 'space': r['sp'], 'assignment': repr(raw), 'trial': form, 'expected': r['contains'], 'observed': got})
 
 
 def traversal(ctx, d, stats):
@@ -217,10 +245,21 @@ def traversal(ctx, d, stats):
   res, recs = ssutil.run_mode('traversal', d, invariants=['TraversalExact', 'TraversalSound'])
   recs = [r for r in recs if r is not True]
   spaces = {}
+  seen_contains = set()
   for r in recs:
     key = json.dumps(r['tree'], sort_keys=True)
     if key not in spaces:
-      spaces[key] = ssutil.build_space(r['tree'])
+      try:
+        spaces[key] = ssutil.build_space(r['tree'])
+      except Exception as e:  # pylint: disable=broad-except
+        # a valid conditional definition (enumerated by the model) could not even be built
+        spaces[key] = None
+        ctx.violation({'via': 'traversal', 'what': 'valid-definition-refused', 'error': type(e).__name__},
+                      {'kind': 'traversal', 'tree': r['tree'], 'error': '%s: %s' % (type(e).__name__, str(e)[:200])})
+    if spaces[key] is None:
+      continue
+    if key not in seen_contains:
+      seen_contains.add(key)
       # membership in a conditional space is refused as unsupported, never answered
       if any(n['parent'] for n in r['tree']):
         try:
